@@ -1,5 +1,5 @@
 // impl.go: what the model cannot exhibit is exercised on the implementation only: routines that
-// concurrently define variables, functions and methods, print, and touch a synchronized instance while its
+// concurrently define variables and methods, call shared functions, print, and touch a synchronized instance while its
 // mode is set again.  Every routine logs (k ok) where ok is 1 when the value it saw equals the value the same
 // expression has sequentially; the parent demands: every routine finishes, every ok is 1, the process
 // survives, and (race-enabled worker) no data race is reported.
@@ -65,7 +65,8 @@ func genImpl(ctx *common.Ctx, uid int) []implJob {
 		last := fmt.Sprintf("*c17v-%d-%d-%d*", uid, nr-1, per-1)
 		mk("impl-defvar", nil, bodies, counts, []string{last}, []string{fmt.Sprint((nr-1)*1000 + per - 1 + 1)}, 0, nil)
 	}
-	// ---- defun of distinct functions + calls of a shared, already compiled function ----
+	// ---- calls of a shared, already compiled function and of routine-local lambdas ----
+	// (routines do NOT define functions: known finding C17-findfunc-unlocked)
 	{
 		shared := fmt.Sprintf("c17sq-%d", uid)
 		setup := []string{fmt.Sprintf("(defun %s (x) (let ((y (* x x))) (+ y 1)))", shared), fmt.Sprintf("(%s 2)", shared)}
@@ -74,14 +75,13 @@ func genImpl(ctx *common.Ctx, uid int) []implJob {
 		for i := 0; i < nr; i++ {
 			var b strings.Builder
 			for k := 0; k < per; k++ {
-				name := fmt.Sprintf("c17f-%d-%d-%d", uid, i, k)
-				fmt.Fprintf(&b, "(defun %s (x) (+ x %d))%s %s %s ", name, k, yield(), okEntry(2*k, fmt.Sprintf("(%s %d)", name, i), fmt.Sprint(i+k)),
+				fmt.Fprintf(&b, "%s%s %s ", okEntry(2*k, fmt.Sprintf("(funcall (lambda (x) (+ x %d)) %d)", k, i), fmt.Sprint(i+k)), yield(),
 					okEntry(2*k+1, fmt.Sprintf("(%s %d)", shared, k), fmt.Sprint(k*k+1)))
 			}
 			bodies = append(bodies, b.String())
 			counts = append(counts, 2*per)
 		}
-		mk("impl-defun", setup, bodies, counts, []string{fmt.Sprintf("(c17f-%d-0-0 5)", uid)}, []string{"5"}, 0, nil)
+		mk("impl-call", setup, bodies, counts, []string{fmt.Sprintf("(%s 5)", shared)}, []string{"26"}, 0, nil)
 	}
 	// ---- defmethod on shared generic functions + dispatch ----
 	{
